@@ -61,7 +61,19 @@ func VerifC17Routes() {
 	if q > 0 {
 		pk.PacketID = 7
 	}
+	// an MQTT 5 publisher may bind a topic alias with this publish and then publish through the alias alone
+	aliased := ver == 5 && vBool()
+	if aliased {
+		pk.Properties.TopicAlias, pk.Properties.TopicAliasFlag = 1, true
+	}
 	_ = s.processPacket(pub, pk)
+	nByAlias := 0
+	if aliased {
+		pk2 := packets.Packet{ProtocolVersion: ver, FixedHeader: packets.FixedHeader{Type: packets.Publish, Qos: 0, Retain: retain}, TopicName: "", Payload: []byte{2}}
+		pk2.Properties.TopicAlias, pk2.Properties.TopicAliasFlag = 1, true
+		_ = s.processPacket(pub, pk2)
+		nByAlias = 1
+	}
 	vFlush(sub)
 	vFlush(other)
 	nsub := vCountPublishes(sc, 5, "t")
@@ -70,7 +82,7 @@ func VerifC17Routes() {
 		vAssert("write-denied-publish-not-delivered", nsub == 0 && noth == 0)
 		vAssert("write-denied-publish-not-retained", s.Topics.Retained.Len() == 0)
 	} else {
-		vAssert("permitted-publish-reaches-permitted-subscriber", noth == 1)
+		vAssert("permitted-publish-reaches-permitted-subscriber", noth == 1+nByAlias)
 	}
 	if !subRead {
 		vAssert("read-denied-client-receives-nothing", nsub == 0)
